@@ -15,7 +15,7 @@ from bridge_env.playing_phase import PlayingPhaseWithHands
 from pyvc.dsl import (Bool, Card as CardS, CardSet, Const, Dict, Enum, EnumElem, Ext, Int, Obj,
                       OneOf, Opt, Ref, Seq, Text, TraceList, TraceReset, Tuple, contract, klass,
                       lemma, transparent, LoopContract)
-from pyvc.speclib import (conj, disj, forall, iff, implies, ite, json_text, opt_or, same,
+from pyvc.speclib import (local_assigned, call_arg, call_result, calls_since, conj, disj, forall, iff, implies, ite, json_text, opt_or, same,
                           sets_disjoint)
 import spec.jsonlog as J
 import spec.protocol as PR
@@ -254,9 +254,13 @@ def _one_admission_at_a_time(team_names, event_thread, event_sync, thread):
                 event_thread.ops == ['wait', 'clear'])
 
 
-def _boards_inv(game_log_writer, fw, idx, ns_team_name, ew_team_name):
+def _boards_inv(self, game_log_writer, fw, idx, ns_team_name, ew_team_name, max_board_num):
+    # idx boards are done; the loop is left by `break` in the pass for the last board, so the
+    # range is never exhausted unless there is no board at all
     return conj(game_log_writer._open, iff(game_log_writer._first_line, idx == 0),
-                game_log_writer._writer is fw, ns_team_name is not None, ew_team_name is not None)
+                game_log_writer._writer is fw, ns_team_name is not None, ew_team_name is not None,
+                max_board_num == (101 if self.board_settings is None else self.board_settings.n + 1),
+                disj(idx < max_board_num - 1, max_board_num == 1))
 
 
 def expected_scores(contract, taken):
@@ -296,6 +300,30 @@ def _board_is_the_configured_one(self, board_number, board_id, dealer, vul, dda)
                 dealer is b.dealer, vul is b.vul, same(dda, b.dda))
 
 
+def _phases_get_the_board(iter, board_number, dealer, vul, cards, contract, bid_history):
+    """C08/C10: what is dealt, auctioned and played in pass k IS board k: the deal goes out under
+    the board's number, dealer and vulnerability with the board's cards; the auction runs with
+    that dealer and vulnerability and its contract and calls are the ones recorded; the play --
+    entered exactly when the board is not passed out -- is of that contract with a copy of those
+    cards."""
+    played = calls_since(iter, Server.playing_phase)
+    auction = call_result(iter, Server.bidding_phase, 0) if \
+        calls_since(iter, Server.bidding_phase) == 1 else None
+    return conj(
+        calls_since(iter, Server.deal) == 1,
+        call_arg(iter, Server.deal, 0, 'board_number') == board_number,
+        call_arg(iter, Server.deal, 0, 'dealer') is dealer,
+        call_arg(iter, Server.deal, 0, 'vul') is vul,
+        same(call_arg(iter, Server.deal, 0, 'cards'), cards),
+        auction is not None,
+        call_arg(iter, Server.bidding_phase, 0, 'dealer') is dealer,
+        call_arg(iter, Server.bidding_phase, 0, 'vul') is vul,
+        same(auction[0], contract), same(auction[1], bid_history),
+        played == (0 if passed_out(contract) else 1),
+        played == 0 or conj(same(call_arg(iter, Server.playing_phase, 0, 'contract'), contract),
+                            same(call_arg(iter, Server.playing_phase, 0, 'cards'), cards)))
+
+
 def _log_complete(w):
     o = wout(w)
     return (not w._open) and len(o) >= 1 and (o[-1] == J.FOOTER or o[-1] == J.FOOTER_EMPTY)
@@ -316,7 +344,8 @@ class _run:
                         havoc=dict(play_history=Opt(PHShape), taken_trick_num=Opt(Int(0)),
                                    score=Int()),
                         havoc_heap=dict(game_log_writer=WriterLoopShape, **QUEUES_RESET),
-                        body_ensures=dict(record_of_the_board=_board_record,
+                        body_ensures=dict(phases_get_the_board=_phases_get_the_board,
+                                          record_of_the_board=_board_record,
                                           configured_board_in_order=_board_is_the_configured_one)),
     }
     native_replay = {'Server.run/excpost/aborted_session_leaves_a_closed_log':
@@ -327,6 +356,16 @@ class _run:
     # normal end: the log is closed and complete
     def ensures_log_closed(frame):
         return _log_complete(frame.game_log_writer)
+
+    # C08: a session that ends normally has gone through ALL configured boards: the board loop is
+    # left in the pass for the last configured board (each pass handles board k and writes its
+    # record: the per-iteration postconditions), never earlier
+    def ensures_every_configured_board_played(self, frame):
+        if self.board_settings is None:
+            return frame.max_board_num == 101
+        n = self.board_settings.n
+        return conj(frame.max_board_num == n + 1,
+                    n == 0 or (local_assigned(frame, 'board_number') and frame.board_number == n))
 
     # C13: whatever makes the session stop -- illegal or malformed call or play, a card not held,
     # an operator interrupt -- once the log has been opened it is closed again: the closing
